@@ -1,3 +1,5 @@
+import CffiVerif.Generated.SearchSortedExprs
+
 /-
 Model of `search_sorted` (src/c/parse_c_type.c:448) and of the order the code
 generator sorts its tables in (recompiler.py:270, `lst.sort(key=entry.name)`).
@@ -21,26 +23,34 @@ def strncmp : CStr → CStr → Int
       if a = c then (if a = 0 then 0 else strncmp as cs)
       else (a.toNat : Int) - (c.toNat : Int)
 
-/-- `src[n] == '\0'` for a NUL-terminated `src`. -/
-def nulAt (src : CStr) (n : Nat) : Bool :=
+/-- `src[n]` for a NUL-terminated `src`: the byte, 0 at the terminator.  Beyond the
+terminator the C code would read out of bounds; the model answers a non-zero
+value there, so such a read can never make a lookup succeed. -/
+def byteAt (src : CStr) (n : Nat) : Int :=
   match src[n]? with
-  | none => n == src.length      -- the terminator itself; beyond it the C code would read out of bounds
-  | some b => b == 0
+  | some b => b.toNat
+  | none => if n == src.length then 0 else 1
 
-/-- The loop of `search_sorted`, `left`/`right` as in the C code. -/
+/-- The loop of `search_sorted`; the loop condition, the midpoint, the two tests
+and the two interval updates are the definitions regenerated from the C source
+(`Generated/SearchSortedExprs.lean`). -/
 def searchLoop (names : Array CStr) (s : CStr) (left right : Nat) : Option Nat :=
-  if left < right then
-    let middle := (left + right) / 2
+  if Generated.SearchSorted.loopCond left right = true then
+    let middle := Generated.SearchSorted.middleOf left right
     match names[middle]? with
     | none => none
     | some src =>
       let diff := strncmp src s
-      if diff == 0 && nulAt src s.length then some middle
-      else if diff ≥ 0 then searchLoop names s left middle
-      else searchLoop names s (middle + 1) right
+      if Generated.SearchSorted.foundCond diff (byteAt src s.length) = true then some middle
+      else if Generated.SearchSorted.goLeftCond diff = true then
+        searchLoop names s left (Generated.SearchSorted.newRight middle)
+      else searchLoop names s (Generated.SearchSorted.newLeft middle) right
   else none
 termination_by right - left
-decreasing_by all_goals omega
+decreasing_by
+  all_goals simp only [Generated.SearchSorted.loopCond, Generated.SearchSorted.middleOf,
+    Generated.SearchSorted.newRight, Generated.SearchSorted.newLeft, decide_eq_true_eq] at *
+  all_goals omega
 
 def searchSorted (names : Array CStr) (s : CStr) : Option Nat :=
   searchLoop names s 0 names.size
